@@ -92,5 +92,72 @@ example :
     (usingVerifiers Variant.good ⟨⟨1, [0], 1, [1], 1, [], [], [0]⟩, []⟩ vs none none none true).isOk = true := by
   decide
 
+/-- **"Possible, no further signature needed" is exactly what verification decides**: whenever the
+verifier loop in mergeability mode answers without asking for the recorder's signature, the loop
+in verification mode returns the very same answer on the same signature, approvals and rules —
+for every verifier list, signature, envelope and approver set, in every variant. -/
+theorem C19_no_need_is_verification (v : Variant) (g : Option Sig) (auth : Option Envelope)
+    (ap : Option (List String)) (apps : List String) (defs : List PrincipalSpec)
+    (vs : List VerifierN) (r : UVResult)
+    (h : usingVerifiers.go v g auth ap true apps defs vs = .ok r) (hn : r.rslNeeded = false) :
+    usingVerifiers.go v g auth ap false apps defs vs = .ok r := by
+  induction vs with
+  | nil => simp [usingVerifiers.go] at h
+  | cons vn rest ih =>
+    unfold usingVerifiers.go at h ⊢
+    split at h
+    · exact h
+    · rename_i used hused
+      simp only at h ⊢
+      split at h
+      · rename_i hmet
+        simp only [hmet, if_true]; exact h
+      · rename_i hnot
+        simp only [hnot, if_false]
+        split at h
+        · cases h; simp at hn
+        · simp only [Bool.false_and, Bool.false_eq_true, if_false]
+          exact ih h
+    · rename_i x hx hnot
+      cases h
+
+/-- **A refusal in mergeability mode is a refusal in verification mode**: if the loop refuses the
+merge outright ("not possible"), verification with the same signature, approvals and rules refuses
+too — mergeability mode only ever relaxes. -/
+theorem C19_refusal_is_refusal (v : Variant) (g : Option Sig) (auth : Option Envelope)
+    (ap : Option (List String)) (apps : List String) (defs : List PrincipalSpec)
+    (vs : List VerifierN) (e : VE)
+    (h : usingVerifiers.go v g auth ap true apps defs vs = .error e) :
+    usingVerifiers.go v g auth ap false apps defs vs = .error e := by
+  induction vs with
+  | nil => simpa [usingVerifiers.go] using h
+  | cons vn rest ih =>
+    unfold usingVerifiers.go at h ⊢
+    split at h
+    · cases h
+    · rename_i used hused
+      simp only at h ⊢
+      split at h
+      · cases h
+      · rename_i hnot
+        simp only [hnot, if_false]
+        split at h
+        · cases h
+        · simp only [Bool.false_and, Bool.false_eq_true, if_false]
+          exact ih h
+    · exact h
+
+/-- and verification mode accepting implies mergeability mode accepts (possibly at an earlier rule) -/
+theorem C19_verification_implies_possible (v : Variant) (g : Option Sig) (auth : Option Envelope)
+    (ap : Option (List String)) (apps : List String) (defs : List PrincipalSpec)
+    (vs : List VerifierN) (r : UVResult)
+    (h : usingVerifiers.go v g auth ap false apps defs vs = .ok r) :
+    ∃ r', usingVerifiers.go v g auth ap true apps defs vs = .ok r' := by
+  cases hm : usingVerifiers.go v g auth ap true apps defs vs with
+  | ok r' => exact ⟨r', rfl⟩
+  | error e =>
+    rw [C19_refusal_is_refusal v g auth ap apps defs vs e hm] at h
+    cases h
+
 end World
 end Gittuf
